@@ -166,3 +166,7 @@ pub fn equal(lhs: &ArrayData, rhs: &ArrayData) -> bool {
 }
 
 // See arrow/tests/array_equal.rs for tests
+
+#[cfg(kani)]
+#[path = "/verif/kani/arrow-data/equal/mod.rs"]
+mod verif_kani;
